@@ -4,13 +4,14 @@
 # library; the 18 tests pass with the patch. Writes <dir>/confirm.json. The worktree is removed afterwards.
 set -u
 DIR=$(readlink -f "$1")
+EXTRA_LD=""; [ -f $DIR/ldflags ] && EXTRA_LD=$(cat $DIR/ldflags)
 W=$(mktemp -d /tmp/gdstk-benign.XXXXXX); rmdir $W
 git -C /repo worktree add -q --detach $W HEAD || exit 2
 cleanup() { git -C /repo worktree remove --force $W 2>/dev/null; rm -rf $W; }
 trap cleanup EXIT
 cd $W
 build() { cmake -G Ninja -S $W -B $W/_build -DCMAKE_BUILD_TYPE=RelWithDebInfo >/dev/null 2>&1 && cmake --build $W/_build --target all examples >$W/build.log 2>&1; }
-demo() { g++ -std=c++17 -O1 -g -I$W/include -I$W/external $DIR/demo.cpp $W/_build/src/libgdstk.a $W/_build/external/libclipper.a -lz -lqhull_r -o $W/demo >$W/demo_build.log 2>&1 || return 99; mkdir -p $W/run; (cd $W/run && timeout 120 $W/demo >$1 2>$W/demo.err); return $?; }
+demo() { g++ -std=c++17 -O1 -g -I$W/include -I$W/external $DIR/demo.cpp $W/_build/src/libgdstk.a $W/_build/external/libclipper.a -lz -lqhull_r $EXTRA_LD -o $W/demo >$W/demo_build.log 2>&1 || return 99; mkdir -p $W/run; (cd $W/run && timeout 120 $W/demo >$1 2>$W/demo.err); return $?; }
 build || { echo '{"error":"original build failed"}' > $DIR/confirm.json; exit 2; }
 demo $W/digest0; RC0=$?
 git apply $DIR/patch.diff 2>$W/apply.err || { echo "{\"error\":\"patch does not apply to /repo HEAD\"}" > $DIR/confirm.json; cat $W/apply.err; exit 3; }
